@@ -16,6 +16,15 @@
     due all come from that model. The effective style of each character is read
     back by Text.render(console) -> Segments -> RefStyle.
 
+(c) resized text: every event sequence up to the bound over text chunks whose
+    rendered length differs from their source length (valid emoji code of one and
+    of two code points, an emoji-like code that is not in the table, a control
+    code that Text strips, one that it keeps, a double-width character) plus
+    {x, open/close bold, open/close red, [/]} x emoji on/off x the three entry
+    points markup.render, Text.from_markup, Console.render_str. The reference
+    counts tag offsets on the RENDERED text (emoji table / strip table as data).
+    quick: <=5 events over 10 (111 111 sequences x 6); thorough: <=6 over 12.
+
 Measured (machine shared with ~100 other busy processes, so CPU seconds are the
 reliable number; wall on 16 free cores is about CPU/16):
   quick     (a) len<=5: 271 453 strings, (b) len<=5 over 16 events: 1 118 481 sequences;
@@ -41,7 +50,9 @@ TECHNIQUE = ("bounded-exhaustive enumeration of strings and tag-event sequences 
              "render()/escape(), judged by a generator-tracked open-tag stack and hand-written "
              "embedding expectations (no regex in the oracle)")
 LEVEL_TEXT = ("Every string over the 12-symbol markup alphabet up to the length bound is escaped, rendered alone and "
-              "inside four fixed markup contexts, and every tag-event sequence up to the bound is rendered; plain text, "
+              "inside four fixed markup contexts, and every tag-event sequence up to the bound is rendered (a second event "
+              "alphabet adds text that changes length when rendered -- emoji codes, stripped controls -- x emoji on/off x "
+              "render / Text.from_markup / Console.render_str); plain text, "
               "per-character effective style (read back through Text.render) and MarkupError are compared with a "
               "reference that tracks the open-tag stack itself. Exhaustive inside the stated bounds; nothing is sampled.")
 LEVEL_NOTE = ("Trusted: CPython, vf/refstyle.py, the ~120-line reference in vf/checks/c04.py, Console.get_style/Style.parse "
@@ -252,27 +263,56 @@ EVENTS = {
     "-notbold": ("close", "[/not bold]", "not bold"),
     "-link": ("close", "[/link]", "link"),
     "-": ("pop", "[/]", None),
+    # part (c): text chunks whose RENDERED length differs from their source length (payload = source text)
+    ":x:": ("text", ":x:", ":x:"),           # valid emoji code, one code point
+    ":chad:": ("text", ":chad:", ":chad:"),  # valid emoji code, two code points (flag)
+    ":nope:": ("text", ":nope:", ":nope:"),  # emoji-like but not in the table: stays as it is
+    "^H": ("text", "\x08", "\x08"),          # control code that Text strips
+    "^G": ("text", "\x07", "\x07"),          # control code outside the strip table (kept in this version)
+    "wide": ("text", "\u3042", "\u3042"),    # double-width character
 }
 ALPHA_FULL = ["x", "+bold", "-", "+red", "-bold", "-red", "+b", "+blue", "-b", "-blue",
               "y", "+notbold", "-notbold", "+link", "-link", "+linkV"]
 ALPHA_7A = ["x", "+bold", "-", "+red", "-bold", "-red", "+b", "+blue", "-blue"]
 ALPHA_7B = ["x", "y", "-", "+notbold", "+bold", "+link", "-notbold", "-b", "-link", "+linkV"]
-ALPHABETS = {"full": ALPHA_FULL, "7a": ALPHA_7A, "7b": ALPHA_7B}
+ALPHA_C = ["x", ":x:", "+bold", "-", "^H", "-bold", "+red", ":nope:", "-red", "wide"]
+ALPHA_C_THOROUGH = ALPHA_C + [":chad:", "^G"]
+ALPHABETS = {"full": ALPHA_FULL, "7a": ALPHA_7A, "7b": ALPHA_7B, "c": ALPHA_C, "c+": ALPHA_C_THOROUGH}
+ENTRIES = ("render", "from_markup", "render_str")
+
+_TABLES = []
 
 
-def _model(events):
+def _ref_text(src, emoji):
+    """What a source text chunk becomes in the rendered plain text. Rich's emoji table and
+    strip table are used as DATA only; the substitution itself is done here (no regex)."""
+    if not _TABLES:
+        from rich._emoji_codes import EMOJI
+        from rich.control import STRIP_CONTROL_CODES
+        _TABLES.extend([EMOJI, frozenset(STRIP_CONTROL_CODES)])
+    table, strip = _TABLES
+    if emoji and len(src) > 2 and src[0] == ":" and src[-1] == ":" and ":" not in src[1:-1]:
+        src = table.get(src[1:-1].lower(), src)
+    return "".join(ch for ch in src if ord(ch) not in strip)
+
+
+def _model(events, emoji=True):
     """Reference semantics. -> (error_index or None, cells, info)
+    Offsets are counted on the RENDERED text (emoji codes replaced when `emoji`, stripped controls gone).
     cells: [(char, tuple of open tags (name, RefStyle, start offset, event index) in opening order, last close kind)]"""
     stack = []
     cells = []
     last_close = "no-close"
-    info = {"depth": 0, "overlap": False, "same_start": False}
+    info = {"depth": 0, "overlap": False, "same_start": False, "resized": 0}
     n = 0
     for idx, ev in enumerate(events):
         kind, _, payload = EVENTS[ev]
         if kind == "text":
             snap = tuple(stack)
-            for ch in payload:
+            out = _ref_text(payload, emoji)
+            if len(out) != len(payload):
+                info["resized"] += 1
+            for ch in out:
                 cells.append((ch, snap, last_close))
                 n += 1
         elif kind == "open":
@@ -335,54 +375,100 @@ def _classify(tags, want, got):
     return "precedence/same-start" if same_start else "precedence/different-start"
 
 
-def check_events(events, res):
-    from rich.markup import render
+def _call(entry, markup, emoji):
+    if entry == "render":
+        from rich.markup import render
+        return render(markup) if emoji is None else render(markup, emoji=emoji)
+    if entry == "from_markup":
+        from rich.text import Text
+        return Text.from_markup(markup, emoji=emoji)
+    return _console().render_str(markup, emoji=emoji, markup=True, highlight=False)
+
+
+def check_events(events, res, emoji=None, entry="render", part="b", classify_resized=True):
+    """One event sequence through one entry point. emoji=None: the API default (on).
+    -> the finding key that was recorded, or None."""
     from rich.errors import MarkupError
     markup = "".join(EVENTS[ev][1] for ev in events)
-    err_at, mcells, info = _model(events)
-    case = {"part": "b", "events": list(events)}
+    err_at, mcells, info = _model(events, emoji is None or emoji)
+    case = {"part": part, "events": list(events)}
+    call = "render(%r)" % markup
+    if part != "b":
+        case.update(emoji=emoji, entry=entry)
+        call = {"render": "render(%r, emoji=%r)", "from_markup": "Text.from_markup(%r, emoji=%r)",
+                "render_str": "console.render_str(%r, emoji=%r, markup=True, highlight=False)"}[entry] % (markup, emoji)
+    via = "" if entry == "render" else "/via-" + entry
+
+    def bad(key, detail):
+        res.violate(key + via, case, detail)
+        return key + via
+
     res.evaluations += 1
     raised = None
     text = None
     try:
-        text = render(markup)
+        text = _call(entry, markup, emoji)
         plain = text.plain
         cells = _cells(text)
     except MarkupError as e:
         raised = e
     except Exception as e:  # noqa
-        res.violate(_crash_key(e), case, "render(%r) raised %r" % (markup, e))
-        return
+        return bad(_crash_key(e), "%s raised %r" % (call, e))
     if err_at is not None:
+        res.sig((part, entry, "error", EVENTS[events[err_at]][0], min(info["depth"], 3), raised is not None))
         if raised is None:
-            res.violate("tags/markuperror-missing/" + EVENTS[events[err_at]][0], case,
-                        "render(%r) returned %r although %r (event %d) has nothing to close"
-                        % (markup, plain, EVENTS[events[err_at]][1], err_at))
-        res.sig(("b", "error", EVENTS[events[err_at]][0], min(info["depth"], 3), raised is not None))
-        return
+            return bad("tags/markuperror-missing/" + EVENTS[events[err_at]][0],
+                       "%s returned %r although %r (event %d) has nothing to close"
+                       % (call, plain, EVENTS[events[err_at]][1], err_at))
+        return None
     if raised is not None:
-        res.violate("tags/markuperror-spurious", case, "render(%r) raised MarkupError(%s); every close has an open tag"
-                    % (markup, raised))
-        return
+        return bad("tags/markuperror-spurious", "%s raised MarkupError(%s); every close has an open tag" % (call, raised))
     want_plain = "".join(c for c, _, _ in mcells)
     nstyles = len({_fold(t).key() for _, t, _ in mcells})
-    res.sig(("b", "ok", min(info["depth"], 4), min(nstyles, 4), info["overlap"], info["same_start"],
-             min(len(want_plain), 3)),
-            nontrivial=any(t for _, t, _ in mcells))
+    styled = any(t for _, t, _ in mcells)
+    if part == "b":
+        res.sig(("b", "ok", min(info["depth"], 4), min(nstyles, 4), info["overlap"], info["same_start"],
+                 min(len(want_plain), 3)), nontrivial=styled)
+    else:
+        res.sig((part, entry, "ok", emoji, min(info["depth"], 3), min(nstyles, 3), min(info["resized"], 2)),
+                nontrivial=styled and info["resized"] > 0)
+
+    def resized_only():
+        """Classification aid (not part of the verdict): does the same tag structure pass when every
+        chunk that changes length is replaced by an ordinary 'x'? Then the defect is about resized text."""
+        if not (classify_resized and info["resized"]):
+            return False
+        flag = emoji is None or emoji
+        neutral = tuple("x" if EVENTS[ev][0] == "text" and len(_ref_text(EVENTS[ev][2], flag)) != len(EVENTS[ev][2])
+                        else ev for ev in events)
+        scratch = Result()
+        check_events(neutral, scratch, emoji, entry, part, classify_resized=False)
+        return not scratch.violations
+
     if plain != want_plain:
-        res.violate("tags/plain", case, "render(%r).plain == %r, want %r" % (markup, plain, want_plain))
-        return
+        return bad("tags/resized-text/plain" if resized_only() else "tags/plain",
+                   "%s.plain == %r, want %r" % (call, plain, want_plain))
     if "".join(c for c, _ in cells) != plain:
-        res.violate("tags/readback-text", case, "Text.render gives %r for plain %r" % ("".join(c for c, _ in cells), plain))
-        return
+        return bad("tags/readback-text", "Text.render gives %r for plain %r" % ("".join(c for c, _ in cells), plain))
     for i, ((gc, gs), (wc, tags, last_close)) in enumerate(zip(cells, mcells)):
         want = _fold(tags)
         if gs != want:
             cls = _classify(tags, want, gs) or ("style-region/" + last_close)
-            res.violate("tags/" + cls, case,
-                        "render(%r): character %d %r carries %r, want %r (open tags in opening order: %s; spans %r)"
-                        % (markup, i, gc, gs, want, [t[0] for t in tags], text.spans))
-            return
+            if resized_only():
+                cls = "resized-text/style-region"
+            return bad("tags/" + cls,
+                       "%s: character %d %r of %r carries %r, want %r (open tags in opening order: %s; spans %r)"
+                       % (call, i, gc, plain, gs, want, [t[0] for t in tags], text.spans))
+    return None
+
+
+def check_resized(events, res):
+    """Part (c): one sequence x emoji on/off x three entry points, all judged by the same reference."""
+    for emoji in (True, False):
+        if check_events(events, res, emoji, "render", "c") is not None:
+            continue            # the other entry points go through render(): same defect, same key
+        for entry in ENTRIES[1:]:
+            check_events(events, res, emoji, entry, "c")
 
 
 def _b_shards(tier):
@@ -399,6 +485,20 @@ def _b_shards(tier):
     return shards
 
 
+def _c_alpha(tier):
+    return "c" if tier == "quick" else "c+"
+
+
+def _c_shards(tier):
+    shards = []
+    al = _c_alpha(tier)
+    for L in range((5 if tier == "quick" else 6) + 1):
+        k = 0 if L <= 3 else (1 if L == 4 else 2)
+        for prefix in itertools.product(range(len(ALPHABETS[al])), repeat=k):
+            shards.append({"part": "c", "alpha": al, "L": L, "prefix": list(prefix)})
+    return shards
+
+
 def _part_b(sh, res):
     alpha = ALPHABETS[sh["alpha"]]
     head = tuple(alpha[i] for i in sh["prefix"])
@@ -408,19 +508,22 @@ def _part_b(sh, res):
             res.capped = True
             break
         events = head + tup
-        check_events(events, res)
+        if sh["part"] == "c":
+            check_resized(events, res)
+        else:
+            check_events(events, res)
         if n % 9973 == 11:
-            res.sample({"part": "b", "events": list(events), "markup": "".join(EVENTS[e][1] for e in events)})
+            res.sample({"part": sh["part"], "events": list(events), "markup": "".join(EVENTS[e][1] for e in events)})
         n += 1
-    res.count("b_sequences", n)
-    res.count("b_done_%s_len%d" % (sh["alpha"], sh["L"]), n)
+    res.count("%s_sequences" % sh["part"], n)
+    res.count("%s_done_%s_len%d" % (sh["part"], sh["alpha"], sh["L"]), n)
 
 
 # ------------------------------------------------------------------ protocol
 def plan(tier, seed):
     # strata in ascending length, (b) before (a) inside a stratum: a wall cap cuts off the longest strings only
-    shards = _a_shards(5 if tier == "quick" else 7) + _b_shards(tier)
-    shards.sort(key=lambda sh: (sh["L"], sh["part"] != "b", sh.get("alpha", ""), sh["prefix"]))
+    shards = _a_shards(5 if tier == "quick" else 7) + _b_shards(tier) + _c_shards(tier)
+    shards.sort(key=lambda sh: (sh["L"], "bca".index(sh["part"]), sh.get("alpha", ""), sh["prefix"]))
     return shards
 
 
@@ -437,7 +540,13 @@ def _completed(res, tier):
             break
         b_done = L
     b7 = {al: res.counters.get("b_done_%s_len7" % al, 0) == len(ALPHABETS[al]) ** 7 for al in ("7a", "7b")}
-    return a_done, b_done, b7
+    c_done = -1
+    al = _c_alpha(tier)
+    for L in range((5 if tier == "quick" else 6) + 1):
+        if res.counters.get("c_done_%s_len%d" % (al, L), 0) != len(ALPHABETS[al]) ** L:
+            break
+        c_done = L
+    return a_done, b_done, b7, c_done
 
 
 def run_shard(sh, tier, seed):
@@ -456,24 +565,33 @@ def describe(tier, seed, res):
                 "alone, and -- when s does not end in a backslash and no '[' of s lacks a later ']' -- between "
                 "('[bold]','[/bold]'), ('x[red]y','z[/]'), ('[b]q[/b] ',''), ('[red]r[/red]','[blue]t'); emoji=True as well "
                 "when s has fewer than two ':'%s. (b) every sequence of <=%d events over {x, \\[y], open/close of bold, b, red, "
-                "blue, 'not bold', link=U, plus open link=V, [/]} (16 events)%s. A case is non-trivial when escape() added at least one "
-                "backslash (a) / at least one character is inside an open tag or MarkupError is due (b); distinct = "
-                "distinct outcome signatures."
+                "blue, 'not bold', link=U, plus open link=V, [/]} (16 events)%s. (c) every sequence of <=%d events over text chunks "
+                "whose rendered length differs from their source length {:x: (emoji, 1 code point), :nope: (no such emoji), "
+                "U+0008 (stripped control), U+3042 (wide)%s} plus {x, +bold, +red, -bold, -red, [/]} x emoji on/off x entry point "
+                "{markup.render, Text.from_markup, Console.render_str}; offsets of the reference are counted on the rendered text "
+                "(emoji table and strip table used as data). A case is non-trivial when escape() added at least one "
+                "backslash (a) / at least one character is inside an open tag or MarkupError is due (b) / a styled character "
+                "coexists with a chunk that changed length (c); distinct = distinct outcome signatures."
                 % (5 if q else 7,
                    "" if q else " (at length 7: 11 symbols -- 'b' is in the same class as 'a' for every regex involved -- and emoji=True only on the stand-alone clause)",
                    5 if q else 6,
                    "" if q else ", plus every sequence of exactly 7 events over the sub-alphabets "
-                                "{x,+bold,[/],+red,-bold,-red,+b,+blue,-blue} and {x,\\[y],[/],+not bold,+bold,+link=U,+link=V,-not bold,-b,-link}"),
+                                "{x,+bold,[/],+red,-bold,-red,+b,+blue,-blue} and {x,\\[y],[/],+not bold,+bold,+link=U,+link=V,-not bold,-b,-link}",
+                   5 if q else 6,
+                   "" if q else ", :chad: (emoji, 2 code points), U+0007 (control that is not stripped)"),
         "assumptions": [
             "Console.get_style resolves the fixed tag spellings bold, b, red, blue, 'not bold', 'link U', 'link V' to their documented styles (decided by C06/C20)",
             "the embedded clause is only judged for contexts that do not end in a backslash (such a context is not 'complete markup')",
             "emoji substitution is a separate feature: emoji=True is only judged where fewer than two ':' make it a no-op",
             "exact (tri-state) style equality per character: 'not bold' must read back as bold=False, not as unset",
+            "part (c): the rendered form of a text chunk is its emoji-table entry (emoji on, ':name:' in rich._emoji_codes.EMOJI) minus the code points of rich.control.STRIP_CONTROL_CODES; both tables are trusted as data",
         ],
         "coverage": {"strings": res.counters.get("a_strings", 0), "tag_sequences": res.counters.get("b_sequences", 0),
                      "completed_bounds": {"escape_string_length": _completed(res, tier)[0],
                                           "tag_events_full_alphabet": _completed(res, tier)[1],
-                                          "tag_events_len7_subalphabets": (_completed(res, tier)[2] if not q else "n/a")}},
+                                          "tag_events_len7_subalphabets": (_completed(res, tier)[2] if not q else "n/a"),
+                                          "resized_text_events": _completed(res, tier)[3]},
+                     "resized_text_sequences": res.counters.get("c_sequences", 0)},
     }
 
 
@@ -481,6 +599,8 @@ def replay(case):
     res = Result()
     if case.get("part") == "a":
         check_escape(case["s"], res)
+    elif case.get("part") == "c":
+        check_events(tuple(case["events"]), res, case["emoji"], case["entry"], "c")
     else:
         check_events(tuple(case["events"]), res)
     return [(k, v[2]) for k, v in sorted(res.violations.items())]
